@@ -385,7 +385,7 @@ def stage_replay(tier, dump=None, name="replay", universe="3"):
                    "--universe", universe, "--seed", seed, "--compare", "--mismatches", mm,
                    "--max-mismatches", "50"]
             procs.append((h, k, mm, subprocess.Popen(cmd, stdout=subprocess.PIPE, stderr=subprocess.PIPE,
-                                                      text=True)))
+                                                      text=True, preexec_fn=limits())))
         for h, k, mm, p in procs:
             try:
                 out, err = p.communicate(timeout=3600)
@@ -424,7 +424,9 @@ def stage_segments(tier, segfile, name, universe="3", configs=None):
                 cmd = [os.path.join(BIN, "run"), "--segments", segfile, "--hasher", h, "--keyform", k,
                        "--universe", universe, "--events", events]
                 p = subprocess.run(cmd, stdout=subprocess.PIPE, stderr=subprocess.PIPE, text=True,
-                                   timeout=3600)
+                                   timeout=3600, preexec_fn=limits())
+                if p.returncode != 0:
+                    drop_partial_last_line(events)
                 res = {"hasher": h, "keyform": k, "rc": p.returncode, "events_file": events,
                        "segments_file": segfile}
                 if p.returncode != 0:
@@ -531,6 +533,17 @@ def drop_partial_last_line(path):
         fh.write(b"\n".join(lines) + (b"\n" if lines else b""))
 
 
+def limits():
+    """preexec_fn for processes that execute the code under test: a corrupted cache must
+    not be able to eat the machine (address space 6 GiB, cpu time 5 min)"""
+    import resource
+
+    def f():
+        resource.setrlimit(resource.RLIMIT_AS, (6 << 30, 6 << 30))
+        resource.setrlimit(resource.RLIMIT_CPU, (300, 300))
+    return f
+
+
 def run_parallel(jobs, nproc):
     """jobs: list of callables; run with a pool of threads (they wait on subprocesses)"""
     from concurrent.futures import ThreadPoolExecutor
@@ -555,7 +568,8 @@ def stage_drive(tier, name="drive", plan=None):
                        "--events", trace, "--script-out", script,
                        "--crash-rate", str(job["crash_rate"]), "--forget-rate", str(job["forget_rate"]),
                        "--segment", str(job.get("segment", 500))]
-                p = subprocess.run(cmd, stdout=subprocess.PIPE, stderr=subprocess.PIPE, text=True, timeout=1800)
+                p = subprocess.run(cmd, stdout=subprocess.PIPE, stderr=subprocess.PIPE, text=True, timeout=1800,
+                                   preexec_fn=limits())
                 res = {"job": job, "trace": trace, "script": script, "driver_rc": p.returncode}
                 if p.returncode != 0:
                     # the code under test brought the process down: that is data
@@ -587,7 +601,7 @@ def stage_drive(tier, name="drive", plan=None):
 
 def ret_owner(op, tag):
     if op in ("insert", "try_insert"):
-        return ["C10"] if tag in ERR_TAGS else ["C04", "C10"]
+        return ["C10"] if tag in ERR_TAGS else ["C04"]
     if op in ("get", "get_entry", "peek", "peek_entry", "contains", "remove", "remove_entry", "touch"):
         return ["C04"]
     if op in ("get_lru", "peek_lru", "peek_mru", "remove_lru", "remove_mru", "debug"):
@@ -608,30 +622,33 @@ def ret_owner(op, tag):
 
 
 def replay_owners(m):
-    """properties a replay mismatch speaks about (mirrors CallBad in LruMemTrace.tla)"""
+    """properties a replay mismatch speaks about (mirrors CallBad in LruMemTrace.tla).
+    The replayer compares content-dependent facets only when the key sets agree, so each
+    mismatch reported for a step is a root cause, not a consequence of another one."""
     f = m["facet"]
     op = m.get("op") or ""
     a = m.get("a") or {}
-    forgot = op in ITER_KINDS and a.get("fl")
+    if op in ITER_KINDS and a.get("fl"):
+        return ["C17"]
     exp, act = m.get("expected"), m.get("actual")
     if f == "keys":
         if isinstance(exp, list) and isinstance(act, list) and sorted(exp) == sorted(act):
-            return ["C05"]
-        o = ["C04"]
+            return ["C05"]                  # same entries, different recency order
         if op in EVICTING:
-            o.append("C03")
+            return ["C03"]                  # entries left / stayed that should not have
         if op == "retain":
-            o.append("C15")
+            return ["C15"]
         if op in ITER_KINDS:
-            o.append("C12")
-        return o
+            return ["C12"]
+        return ["C04"]
     table = {
-        "trav": ["C07"], "es": ["C02"], "max": ["C01"], "bound": ["C01"], "cap": ["C13"], "b": ["C13"],
-        "len": ["C02"], "is_empty": ["C02"], "mirror": ["C07"], "keysiter": ["C07"],
-        "vals_ok": ["C07"], "ptr_iter": ["C07"], "ptr_peek": ["C07"], "dead": ["C07"],
-        "hook_cur": ["C07"], "lru": ["C05"], "mru": ["C05"], "marks": ["C06", "C04"],
-        "probe": ["C04"], "probe_ro": ["C19"], "readonly_fp": ["C19"], "others": ["C14"],
-        "hashes": ["C20"], "end_of_life": ["C06"], "alive": ["C12"],
+        "trav": ["C07"], "max": ["C01"], "bound": ["C01"], "cap": ["C13"], "b": ["C13"],
+        "es_eq_rec": ["C02"], "sum_rec": ["C02"], "len": ["C02"], "is_empty": ["C02"],
+        "mirror": ["C07"], "keysiter": ["C07"], "vals_ok": ["C07"], "ptr_iter": ["C07"],
+        "ptr_peek": ["C07"], "dead": ["C07"], "hook_cur": ["C07"], "lru": ["C05"], "mru": ["C05"],
+        "marks": ["C06", "C04"], "nodup": ["C04"], "probe": ["C04"], "probe_ro": ["C19"],
+        "readonly_fp": ["C19"], "others": ["C14"], "hashes": ["C20"], "end_of_life": ["C06"],
+        "alive": ["C12"],
     }
     if f in table:
         return table[f]
@@ -640,16 +657,17 @@ def replay_owners(m):
     if f in ("rec", "cur"):
         return ["C02"] + (["C11"] if op == "mutate" else [])
     if f in ("ret", "panic"):
-        tag = exp.get("tag") if isinstance(exp, dict) else ""
-        return ret_owner(op, tag)
+        etag = exp.get("tag") if isinstance(exp, dict) else ""
+        atag = act.get("tag") if isinstance(act, dict) else ""
+        if op in ("insert", "try_insert"):
+            return ["C10"] if (etag in ERR_TAGS or atag in ERR_TAGS) else ["C04"]
+        return ret_owner(op, etag)
     if f in ("dropped", "handed", "anom"):
         o = ["C06"]
         if op in ITER_KINDS and f != "anom":
             o.append("C12")
         if op == "retain" and f == "dropped":
             o.append("C15")
-        if forgot:
-            o.append("C17")
         return o
     if f.startswith("clone_"):
         return ["C14"]
@@ -772,6 +790,14 @@ def collect_core(prop, tier, fnd, cov):
     cov["replayed_steps"] = executed
     drv = stage_drive(tier)
     collect_drive(prop, drv, fnd, cov)
+    if prop == "C07":
+        import stages_ext
+        stages_ext.list_into(prop, tier, fnd, cov, sys.modules[__name__])
+    if prop == "C01":
+        # the bound must also hold in whatever is used after a caught panic
+        import stages_ext
+        seg = stage_segments(tier, dump["crash"]["file"], "segments-crash", universe="3")
+        stages_ext.segments_into(prop, seg, fnd, cov, sys.modules[__name__], "crash")
     cov["distinct_nontrivial"] = nt["counts"].get(prop, 0)
     cov["samples"] = nt["samples"].get(prop, [])[:3]
     return cov
